@@ -228,15 +228,19 @@ let parse_sheet (s : string) : sheet_spec =
   | _ -> failwith "bad sheet"
 let show_sheets (l : (BinNums.coq_N list * scell list) list) : string =
   try "ok:" ^ join "|" (List.map show_sheet l) with Exit -> "panic"
-let wbenc (args : string list) : string =
+(* the CodePage record of the globals: '-' = none, else its 16-bit value; replays written before
+   the record became a choice have no such field: 1200, the value that was fixed then *)
+let rec wbenc (args : string list) : string =
   match args with
-  | [total; strs; lays; sheets] ->
+  | [total; strs; lays; sheets] -> wbenc [total; strs; lays; sheets; "1200"]
+  | [total; strs; lays; sheets; cp] ->
+    let cp = if cp = "-" then None else Some (n_of_string cp) in
     let strs = parse_strings strs in
     let lay = { lay_total = n_of_string total; lay_strs = parse_layouts lays } in
     let shs = List.map parse_sheet (String.split_on_char ';' sheets) in
-    let legal = legal_workbook strs lay shs in
+    let legal = legal_workbook cp strs lay shs in
     let known = "-" in
-    let stream = workbook_stream strs lay shs in
+    let stream = workbook_stream cp strs lay shs in
     let model = match wb_strings stream with
       | Ok l -> show_sheets l
       | Err e -> if int_of_n e = 99 then "unmodelled" else "err"
